@@ -58,9 +58,10 @@ class C16(object):
             kind = rng.choice(['join', 'meet', 'meet', 'mss', 'common'])
             vars_ = list(range(n))
             if n == 2:
-                groups = [[0], [1]]
+                groups = rng.choice([[[0], [1]], [[0], [1]], [[1], [0]]])
             else:
-                groups = rng.choice([[[0], [1]], [[0], [1], [2]], [[0, 1], [2]], [[0], [1, 2]], [[0, 1], [1, 2]]])
+                groups = rng.choice([[[0], [1]], [[0], [1], [2]], [[0, 1], [2]], [[0], [1, 2]], [[0, 1], [1, 2]],
+                                     [[1], [0]], [[2], [0]], [[2], [0, 1]], [[1, 2], [0]], [[2], [1], [0]], [[1, 0], [2]]])
             cgroups = rng.choice(['singletons', 'given'])
             if kind == 'common' and n == 3 and rng.random() < 0.6:
                 # two of the three variables: the left-out one must not influence K, F, M
